@@ -59,6 +59,26 @@ Proof.
   - intros v [H|[]]. exists 1%nat. symmetry. exact H.
 Qed.
 
+(* the same with a host fact used as a count (2 CPUs in one process, 16 in the other) *)
+Lemma counted_refuted : exists sd g g',
+  run (counted propose_next) sd g 0 0 <> run (counted propose_next) sd g' 0 0 /\
+  (forall v, In v (run (counted propose_next) sd g 0 0) -> exists i, v = sd i) /\
+  (forall v, In v (run (counted propose_next) sd g' 0 0) -> exists i, v = sd i).
+Proof.
+  exists (fun i => Z.of_nat i), (fun _ => 2), (fun _ => 16). vm_compute. repeat split.
+  - discriminate.
+  - intros v [H|[]]. exists 2%nat. symmetry. exact H.
+  - intros v [H|[]]. exists 16%nat. symmetry. exact H.
+Qed.
+
+(* a count that is an OPTION of the search (a constant of the program) is harmless *)
+Lemma fixed_count_deterministic : forall n rest, no_global rest -> forall sd g g' i j j',
+  run (skip n rest) sd g i j = run (skip n rest) sd g' i j'.
+Proof.
+  intros n rest H sd g g' i j j'. apply run_no_global. clear sd g g' i j j'.
+  induction n as [|n IH]; cbn [skip no_global]; [exact H | intros _; exact IH].
+Qed.
+
 (* without the guard (the same draws, unconditionally) the run is a function of the seeded stream alone *)
 Lemma unguarded_deterministic : forall rest, no_global rest -> forall sd g g' i j j',
   run (Draw SSeeded (fun _ => rest)) sd g i j = run (Draw SSeeded (fun _ => rest)) sd g' i j'.
